@@ -140,3 +140,32 @@ def embedded_ok(s: str) -> bool:
 
 SL = 1 if TIER == 'quick' else 2
 EL = 2 if TIER == 'quick' else 3
+
+
+# one symbolic character in each position class of escape(): first (with a follower), interior, last, directly after a
+# leading dash (alone / followed), after a double dash.  The rest of the identifier is concrete, so tokenising stays cheap.
+SHAPES = [('', 'b'), ('a', 'b'), ('ab', ''), ('-', ''), ('-', 'b'), ('--', ''), ('a-', ''), ('-a', ''), ('_', '-')]
+SHAPES_P = part(SHAPES)
+
+
+def position_roundtrip_ok(c: str, si: int, which: int) -> bool:
+    """
+    pre: len(c) == 1
+    pre: 0 <= si < len(SHAPES_P)
+    pre: 0 <= which <= 2
+    post: _
+    """
+    pre, post = SHAPES_P[si]
+    s = pre + c + post
+    v = _value(s)
+    esc = cp.escape(s)
+    if which == 0:
+        return ret(_only(raw_compile('#' + esc), ids=(v,)))
+    if which == 1:
+        return ret(_only(raw_compile('.' + esc), classes=(v,)))
+    comp = raw_compile('div#' + esc + '.k > p')
+    sl = comp.selectors
+    if len(sl) != 1 or len(sl[0].relation) != 1:
+        return ret(False)
+    d = sl[0].relation[0]
+    return ret(sl[0].tag == ct.SelectorTag('p', None) and d.ids == (v,) and d.classes == ('k',) and d.rel_type == '>')
